@@ -421,13 +421,13 @@ def build(identity, rng, vstrat="random", cstrat="small", mstrat="random", force
     raise RuntimeError(f"cannot fit {identity} into 1023 bytes")
 
 
-def decode(identity, payload):
-    """Reference DECODER: walk the definition over given bytes.
+def decode(identity, payload, tabs=None):
+    """Reference DECODER: walk the definition over given bytes (tabs: other definition tables, e.g. the pinned ones).
 
     Returns an Encoded-like object (expected attributes, fields, nbits) or raises Short when the
     payload cannot hold what it announces. STR zero units / M>N are flagged in meta, not judged.
     """
-    b = Builder(identity, None, source=payload)
+    b = Builder(identity, None, source=payload, tabs=tabs)
     e = b.build()
     e.payload = payload
     e.meta["zero_str"] = b.zero_str
